@@ -274,8 +274,13 @@ class Model:
                 out[st.name] = ("class", self.classes[st.name])
             elif isinstance(st, ast.FunctionDef) and any(_is_name(d, "singleton") for d in st.decorator_list):
                 rets = [n for n in ast.walk(st) if isinstance(n, ast.Return)]
-                if len(rets) == 1 and isinstance(rets[0].value, ast.Call):
-                    out[st.name] = ("ctor", rets[0].value)
+                val = rets[0].value if len(rets) == 1 else None
+                if isinstance(val, ast.Name):
+                    # return through a local:  x = Ctor(...); return x
+                    defs = [a.value for a in ast.walk(st) if isinstance(a, ast.Assign) and len(a.targets) == 1 and isinstance(a.targets[0], ast.Name) and a.targets[0].id == val.id]
+                    val = defs[0] if len(defs) == 1 else None
+                if isinstance(val, ast.Call):
+                    out[st.name] = ("ctor", val)
                 else:
                     out[st.name] = ("opaque", st)
             elif isinstance(st, ast.Assign) and len(st.targets) == 1 and isinstance(st.targets[0], ast.Name) \
